@@ -200,6 +200,8 @@ def run(tier: str) -> int:
     run_family_c(chk, tier)
     from harness import inline
     inline.judge(chk, tier, "C01")
+    from harness import table
+    table.judge(chk, tier, "C01")
     for id_ in list(metas)[:: max(1, len(metas) // 4)][:4]:
         chk.sample({k: metas[id_][k] for k in ("fam", "toks", "src", "opts", "out")})
     chk.exhaustive = True
